@@ -95,9 +95,29 @@ Definition btc_validate (p : sparams) (want : bytes) (outs : list txout) : bool 
       end
   end.
 
+(* `for i, out := range TxOut { if out.Value == int64(params.Amount) && bytes.Equal(wantScript, out.PkScript) {...} }` *)
+Fixpoint find_swap_out (amt : Z) (want : bytes) (i : Z) (outs : list txout) : option (Z * txout) :=
+  match outs with
+  | [] => None
+  | o :: r => if (o_value o =? amt) && bytes_eqb want (o_script o) then Some (i, o)
+              else find_swap_out amt want (i + 1) r
+  end.
+
 (* BitcoinOnChain.GetVoutAndVerify on a transaction that deserialises:
    (ok, vout) or an error *)
 Definition btc_get_vout (p : sparams) (want : bytes) (outs : list txout) : res (bool * Z) :=
+  match redeem_script p gen_onchain_bitcoin_csv_c03 with       (* GetOutputScript *)
+  | None => RErr
+  | Some _ =>
+      match find_swap_out (i64 (sp_amount p)) want 0 outs with
+      | Some (i, _) => ROk (true, i)
+      | None => ROk (false, 0)
+      end
+  end.
+
+(* the same function before the repair of finding F_C08_2: the first output with the
+   amount decides, whatever its script *)
+Definition btc_get_vout_unrepaired (p : sparams) (want : bytes) (outs : list txout) : res (bool * Z) :=
   match find_amount (i64 (sp_amount p)) 0 outs with
   | None => ROk (false, 0)
   | Some (i, o) =>
